@@ -64,18 +64,18 @@ class GCMAlgorithmCustomMotifs(GCMAlgorithm):
 
                 # build the motif edges from the vertices
                 es: list = self._build_functions[j](vertices)
+                names = self._edge_names[j]()
+
+                if len(es) == 2 and not isinstance(es[0], (tuple, list)):
+                    # a single bare edge (u, v) annoyingly unpacks ... so re-pack it
+                    es = [es]
+                    if isinstance(names, str):
+                        names = [names]
 
                 # get the motif id
                 id = next(gen)
                 EdgeList.motif_id.extend([id] * len(es))
-
-                if len(es) == 2:
-                    # if 2-clique tuple annoyingly unpacks ... so re-pack it
-                    EdgeList.edge_list.extend([es])
-                    EdgeList.topologies.extend([self._edge_names[j]()])
-
-                else:
-                    EdgeList.edge_list.extend(es)
-                    EdgeList.topologies.extend(self._edge_names[j]())
+                EdgeList.edge_list.extend(es)
+                EdgeList.topologies.extend(names)
 
         return EdgeList
